@@ -78,6 +78,27 @@ decreasing_by
   simp only [List.length_drop, List.length_cons] at *
   omega
 
+/-- what `char_at` indexes into: the decoded code points, an invalid byte standing for the rune
+with the byte's value (the char *iterator* yields U+FFFD there — see `C20.CharAtAgreesWithIterator`) -/
+def getView (s : Bytes) : List Nat :=
+  match s with
+  | [] => []
+  | b :: rest =>
+    let p := decodeRune (b :: rest)
+    (if p.1 = runeError ∧ p.2 = 1 then b.toNat else p.1) :: getView ((b :: rest).drop p.2)
+termination_by s.length
+decreasing_by
+  have h1 := decodeRune_width_pos (b :: rest) (by simp)
+  have h2 := decodeRune_width_le (b :: rest)
+  simp only [List.length_drop, List.length_cons] at *
+  omega
+
+/-- Elk index normalisation: `i` counts from the end when negative -/
+def normIdx (i : Int) (n : Nat) : Option Nat :=
+  if 0 ≤ i ∧ i < n then some i.toNat
+  else if -(n : Int) ≤ i ∧ i < 0 then some (i + n).toNat
+  else none
+
 /-- `String.Get` -/
 def get (s : Bytes) (index : Int) : Res Nat :=
   if index < 0 then
